@@ -290,6 +290,7 @@ std::string LocName(const void *p)
   return n;
 }
 
+void (*g_exit_op_hook)(const void *, int) = nullptr;
 void SetNoBranch(bool on) { g_nobranch = on; }
 void TrackMainThread(bool on) { g_track_main = on; }
 
@@ -647,7 +648,10 @@ void PostOp(const void *loc, int op, std::memory_order mo, uint64_t before, uint
   }
   // thread-exit destructors: also a scheduling point AFTER every operation, so that the steps of the
   // exit path (ID release, heartbeat expiry, node free) can be separated whatever their order
-  if (t.body_done) YieldToController(me);
+  if (t.body_done) {
+    if (g_exit_op_hook != nullptr) g_exit_op_hook(loc, op);
+    YieldToController(me);
+  }
 }
 
 void SpinHint(int) noexcept
